@@ -27,6 +27,8 @@ CONSTANTS Track,           \* BOOLEAN: maintain lastAct/depth (replay emission);
           MaxTail,         \* largest ResumeVerifyTail explored
           EndChecksResend, \* BOOLEAN, see above
           VerifyAfterEnd,  \* BOOLEAN, see above
+          SkipUnverifiable, \* BOOLEAN: TRUE = the code up to fix 4b89ae6 - when the receiver could not hash its highest
+                           \* recorded chunk in time, that chunk is skipped like any other recorded one (neither compared nor sent)
           Wide             \* BOOLEAN: instead of every bitmap of up to MaxN chunks, a family of bitmaps over 8 and 16 chunks
                            \* (whole bitmap bytes: used with the constraint DepthOne to enumerate inputs for the end-to-end runs)
 
@@ -85,10 +87,13 @@ HU       == hashUnknown /\ HasV
 ForceFrom == IF HU /\ n > 0
                THEN LET t == IF tail = 0 THEN 1 ELSE tail
                         minForce == IF n > t THEN n - t ELSE 0
-                    IN IF Force2 > minForce THEN minForce ELSE Force2
+                        f == IF Force2 > minForce THEN minForce ELSE Force2
+                    IN IF ~SkipUnverifiable /\ V < n /\ f > V THEN V ELSE f     \* a chunk that cannot be verified is sent again
                ELSE Force2
 VerifyNeeded == verifyOn /\ V < n /\ ~HU
 Skippable(i) == i \in bits /\ i < ForceFrom
+\* the highest recorded chunk is either compared by hash or sent again - never taken on trust
+VerifiedOrResent == (HasV /\ V < n /\ verifyOn) => (VerifyNeeded \/ ~Skippable(V))
 
 \* ---- initial states --------------------------------------------------------
 \* bitmaps over a wide file: nothing, everything, all but the last, the last four, all but the last four,
